@@ -150,7 +150,7 @@ CHECKS = {
     "C13": dict(engine=E2, ref="5/C13",
                 text="Breadth-first search from generalized shells (l 0..4, K 1..4, M 1..4) over the rewrites split-"
                      "generalized / permute-primitives (all K!) / split-primitive / scale-column (7 factors over 12 "
-                     "orders of magnitude) to depth 2 (thorough: depth 3 for K*M <= 4, l <= 2), laws checked on every edge (so also from rewritten states) for "
+                     "orders of magnitude) to depth 2 (thorough: depth 3 for K*M <= 2, l <= 2), laws checked on every edge (so also from rewritten states) for "
                      "every public quantity; block-level linearity in each coefficient slot.",
                 note="differential oracle between two runs of the implementation; no reference values; numpy",
                 technique="explicit-state BFS over contraction rewrites with invariance-law oracle"),
